@@ -310,6 +310,17 @@ struct World {
     } else {
       tok("BADOP");
     }
+    if (use_decoy && (k % 2) == 1) {
+      // the other manager moves on as well, between two instructions of this thread (i.e. possibly in the middle of the
+      // first manager's ForwardGlobalEpoch, which another thread is executing): scratch state shared between manager
+      // instances would be clobbered
+      const int q = vsched::quiet_enter();
+      const bool pn_saved = pn_on;
+      pn_on = false;
+      decoy->ForwardGlobalEpoch();
+      pn_on = pn_saved;
+      vsched::quiet_leave(q);
+    }
     if (use_decoy && !decoy_taken[tid] &&
         (o.name == "gid" || o.name == "hbget" || o.name == "guard" || o.name == "gpe")) {
       // the thread owns its ID now: it takes a guard of the other manager and keeps it until it finishes
